@@ -920,6 +920,9 @@ func (fr *Frame) checkBackEdge(from, hdr *ssa.BasicBlock) {
 // phi(c, phi+k): monotone counters keep their initial bound.
 func (fr *Frame) autoInvariants(li *loopInfo) []func(get func(*ssa.Phi) Term) (Term, string) {
 	var out []func(get func(*ssa.Phi) Term) (Term, string)
+	if fr.fc != nil && fr.fc.NoAuto && fr.parent == nil {
+		return nil
+	}
 	hdr := li.header
 	for _, ins := range hdr.Instrs {
 		phi, ok := ins.(*ssa.Phi)
